@@ -65,7 +65,11 @@ fn child_main(spec: &RunSpec, replay: Option<(Vec<u32>, Vec<u32>)>) -> ! {
             setitimer(2, &it, std::ptr::null_mut()); // ITIMER_PROF
         }
     }
-    sighook_shim::alloc::QUARANTINE.store(true, std::sync::atomic::Ordering::SeqCst);
+    // freed memory is poisoned and never reused during a run, except in one run out of eight of
+    // the registry-model checks: there the allocator recycles addresses as it does in production
+    // (anything keyed by an address only misbehaves when addresses come back)
+    let recycle = (spec.prop.id == "C02" || spec.prop.id == "C05") && spec.run % 8 == 6;
+    sighook_shim::alloc::QUARANTINE.store(!recycle, std::sync::atomic::Ordering::SeqCst);
     sim::install_panic_hook(std::env::var("VSIM_LOUD").is_err());
     let mode = match replay {
         Some((w, s)) => ChooserMode::Replay { w, wi: 0, s, si: 0 },
